@@ -59,7 +59,7 @@ STRATEGIES = ["range", "roundrobin", "sticky"]
 
 # non-vacuity: broken variants of the model and the clause family each one has to violate
 BUGS_QUICK = ["skip_cleanup", "claim_at_initial", "keep_member_id"]
-BUGS_ALL = BUGS_QUICK + ["skip_setup", "no_final_commit", "no_quick_exit", "cleanup_early", "stale_commit_identity"]
+BUGS_ALL = BUGS_QUICK + ["stale_hb_identity", "skip_setup", "no_final_commit", "cleanup_early", "stale_commit_identity"]
 
 
 def bug_cfg(ctx, bug):
